@@ -74,6 +74,14 @@ QE_COLUMNS_OFFGRID = {"err_d": [-100.0000001, -99.9, -33.333, 12.34, 0.1, 61.8]}
 RATES = [0.125, 0.25, 0.375, 0.5, 1.0, 1.5, 2.0, 4.0, 8.0]
 OFFGRID_RATES = [0.1, 0.2, 0.3, 0.7, 1.0 / 3.0, 2.2, 0.05, 0.001, 5.5, 1.1]
 SIM_START = date(2022, 1, 1)
+# first simulated day of a world: New Year's Eve into a leap year, Feb 28/29/Mar 1 of a leap year,
+# day-of-year 366, an ordinary Jan 1, a mid-year start
+BOUNDARY_STARTS = [date(2023, 12, 30), date(2024, 2, 27), date(2024, 12, 29), date(2022, 1, 1), date(2021, 7, 15),
+                   date(2023, 2, 27)]
+# method names: underscores, digits, prefixes of each other, names that look like markers / columns /
+# keywords of the code base, a leading digit, a blank
+NAME_POOL = ["OGI", "OGI_FU", "OGI_FU_2", "A", "A_spatial", "A_temporal", "kept", "Logs", "M1", "M10", "1M",
+             "x y", "Placeholder", "site", "Spatial Coverage", "N_A", "default", "sample"]
 
 
 def to_units(x, mult=SCALE):
@@ -95,6 +103,28 @@ class World:
         self.cfg = cfg
         self.names = [m for m in methods if methods[m]["measurement_scale"] in SCALES and m != "FU"]
         self.mindex = {m: i + 1 for i, m in enumerate(methods)}
+        self.start = date(*cfg["start"])
+        self.methods_snapshot = copy.deepcopy(methods)
+        self.source_cfg = {sc["source"]: sc for sc in cfg["sources"]}
+        self.problems = []              # shared-input / repeated-construction findings of build_world
+
+    def expected_prob(self, kind, method, site_id, source_id):
+        """coverage probability of `method` for emissions of `source_id` at `site_id`, read from the
+        CONFIGURATION (sources-file override > sites-file override > method parameter)"""
+        col = method + "_" + kind
+        v = self.cfg.get("source_extra_cols", {}).get(col, {}).get(source_id)
+        if v is None:
+            ov = self.cfg.get("site_extra_cols", {}).get(col, {})
+            v = ov.get(site_id, ov.get(str(site_id)))
+        if v is None:
+            v = self.cfg["methods"][method][kind]
+        return float(v)
+
+    def expected_mdl(self, method, override):
+        return float(override[0] if override is not None else self.cfg["methods"][method]["mdl"])
+
+    def methods_unchanged(self):
+        return self.methods == self.methods_snapshot
 
     def fresh(self) -> Infrastructure:
         return pickle.loads(self.blob)
@@ -109,6 +139,7 @@ def _method_variants(rng, base):
     out = {}
     fu = copy.deepcopy(base["OGI_FU"])
     out["FU"] = fu
+    names = rng.sample(NAME_POOL, 9)
     k = 0
     for scale, tmpl in (("component", "OGI"), ("equipment", "AIR"), ("site", "AIR")):
         variants = [(1.0, 1.0),
@@ -131,16 +162,21 @@ def _method_variants(rng, base):
                 m["qe"] = [lo, lo + rng.choice([0.0, 25.0, 100.0])]
             if "follow_up" in m:
                 m["follow_up"]["preferred_method"] = "FU"
-            out["%s%d" % (scale[0].upper(), vi)] = m
+            out[names.pop()] = m
         k += 1
     return out
 
 
 def build_world(rng) -> World:
     cfg = W.make_config(rng, granular=True, n_sites=rng.randint(2, 3), ndays=60)
-    cfg["start"] = [SIM_START.year, SIM_START.month, SIM_START.day]
-    end = SIM_START + timedelta(days=59)
+    start = rng.choice(BOUNDARY_STARTS)
+    cfg["start"] = [start.year, start.month, start.day]
+    end = start + timedelta(days=59)
     cfg["end"] = [end.year, end.month, end.day]
+    # site ids: unsorted integers, or strings whose natural and lexicographic orders differ
+    ids = rng.choice([[12, 3, 7], ["s10", "s9", "s2a"], [1, 2, 3], [100, 20, 3]])
+    for i, st in enumerate(cfg["sites"]):
+        st["id"] = ids[i]
     cfg["rep"]["duration"] = rng.choice([3, 4, 6])
     cfg["nonrep"]["duration"] = rng.choice([2, 4, 7])
     cfg["repair_delay"] = rng.choice([[0], [1], [2]])
@@ -164,9 +200,22 @@ def build_world(rng) -> World:
     m = rng.choice([k for k in cfg["methods"] if k != "FU"])
     extra[m + "_temporal"] = {s["id"]: rng.choice([0.0, 0.5, 1.0]) for s in cfg["sites"]}
     cfg["site_extra_cols"] = extra
+    # per-source overrides in the sources file (blank = not specified): they win over the site's
+    m2 = rng.choice([k for k in cfg["methods"] if k != "FU"])
+    cfg["source_extra_cols"] = {m2 + "_spatial": {"sC": rng.choice([0.0, 1.0, 0.5]), "sD": rng.choice([0.0, 1.0])},
+                                m2 + "_temporal": {"sA": rng.choice([0.0, 1.0, 0.5])}}
     root = tempfile.mkdtemp(prefix="ldarverif_c05_")
     try:
         files, in_dir, _ = W.materialize(cfg, root)
+        spath = os.path.join(in_dir, "sources.csv")
+        rows = [ln.rstrip("\n").split(",") for ln in open(spath)]
+        scol = rows[0].index("source")
+        for col, vals in cfg["source_extra_cols"].items():
+            rows[0].append(col)
+            for r in rows[1:]:
+                r.append("" if r[scol] not in vals else repr(vals[r[scol]]))
+        with open(spath, "w") as fh:
+            fh.write("\n".join(",".join(r) for r in rows) + "\n")
         with open(os.path.join(in_dir, QE_FILE), "w") as fh:
             allc = dict(QE_COLUMNS)
             allc.update(QE_COLUMNS_OFFGRID)
@@ -184,12 +233,36 @@ def build_world(rng) -> World:
             vw = sp.pop(pdc.Levels.VIRTUAL)
             methods = {m: programs[p][pdc.Levels.METHOD][m] for p in programs
                        for m in programs[p][pdc.Program_Params.METHODS]}
-            np.random.seed(rng.randrange(1 << 31))
+            seed = rng.randrange(1 << 31)
+            vw0, methods0 = copy.deepcopy(vw), copy.deepcopy(methods)
+            np.random.seed(seed)
             infra = Infrastructure(vw, methods, Path(in_dir))
-        return World(pickle.dumps(infra), methods, Path(in_dir), root, cfg)
+            # several real objects from the SAME input dicts: equal results, inputs deep-equal before/after
+            np.random.seed(seed)
+            infra2 = Infrastructure(vw, methods, Path(in_dir))
+        world = World(pickle.dumps(infra), methods, Path(in_dir), root, cfg)
+        if vw != vw0 or methods != methods0:
+            world.problems.append("building an Infrastructure changed its input parameter dictionaries")
+        if coverage_signature(infra) != coverage_signature(infra2):
+            world.problems.append("two Infrastructures built from the same inputs differ: %r vs %r" % (
+                coverage_signature(infra)[:3], coverage_signature(infra2)[:3]))
+        return world
     except BaseException:
         shutil.rmtree(root, ignore_errors=True)
         raise
+
+
+def coverage_signature(infra):
+    """(site, group, component, source, spatial probabilities, temporal probabilities) of every source"""
+    out = []
+    for site in infra._sites:
+        for eqg in site._equipment_groups:
+            for comp in eqg._component:
+                for src in comp._sources:
+                    out.append((str(site.get_id()), str(eqg.get_id()), str(comp.get_id()), str(src.get_id()),
+                                sorted((k, float(v)) for k, v in src._meth_spat_covs.items()),
+                                sorted((k, float(v)) for k, v in src._meth_temp_covs.items())))
+    return out
 
 
 # ------------------------------------------------------------------------------------------------
@@ -215,7 +288,11 @@ class Scene:
         self.comp_index = {}
         self.em_id = {}          # id(obj) -> model id
         self.em_obj = {}         # model id -> obj
-        self.em_place = {}       # model id -> (site_idx, eqg name, comp name, comp obj)
+        self.em_place = {}       # model id -> (site_idx, eqg name, comp name, source id, site id)
+        self.em_cfg = {}         # model id -> (start day, rate, persistent, active dur, inactive dur) from the plan / cfg
+        self.start = world.start
+        self.day = None
+        self.round_trips = 0
         self.spatial_draws = {}  # (model id, method) -> number of spatial rolls drawn so far
         self.stored = {}         # (model id, method) -> first stored outcome
         rs = _RateSource()
@@ -234,11 +311,13 @@ class Scene:
             # `_emissions_id` restarts at 0 for every source (as in Source.generate_emissions): ids
             # coincide across sources, sites, scenes and worlds of this process; `n` is the harness's own id
             k_src = len(per_src.get(id(src), (src, []))[1])
-            em = src._create_emission(k_src, SIM_START + timedelta(days=start), SIM_START, rates,
+            em = src._create_emission(k_src, self.start + timedelta(days=start), self.start, rates,
                                       self.infra.repair_delay_dataframe)
             self.em_id[id(em)] = n
             self.em_obj[n] = em
-            self.em_place[n] = (self.sites.index(site), eqg.get_id(), comp.get_id(), comp)
+            self.em_place[n] = (self.sites.index(site), eqg.get_id(), comp.get_id(), src.get_id(), site.get_id())
+            sc = world.source_cfg[src.get_id()]
+            self.em_cfg[n] = (start, rate, bool(sc["persistent"]), int(sc["active"]), int(sc["inactive"]))
             per_src.setdefault(id(src), (src, []))[1].append(em)
         for site in self.sites:
             for eqg in site._equipment_groups:
@@ -253,7 +332,49 @@ class Scene:
                         src._next_emission = None
 
     def day_start(self, d):
-        self.infra.activate_emissions(SIM_START + timedelta(days=d), 0)
+        self.day = d
+        self.infra.activate_emissions(self.start + timedelta(days=d), 0)
+
+    def expected_emitting(self, n, d):
+        """is emission n in an emitting period on day d, from the CONFIGURATION: persistent sources always;
+        intermittent ones are on for `active` days from their first active day, off for `inactive`, and so on"""
+        start, _, persistent, adur, idur = self.em_cfg[n]
+        if persistent:
+            return True
+        d0 = max(start, 0)
+        if d < d0:
+            return False
+        return ((d - d0) % (adur + idur)) < adur
+
+    def _walk(self, infra):
+        out = []
+        for site in infra._sites:
+            for eqg in site._equipment_groups:
+                for comp in eqg._component:
+                    out.extend(comp._active_emissions)
+                    out.extend(comp._inactive_emissions)
+                    for src in comp._sources:
+                        if src._next_emission is not None:
+                            out.append(src._next_emission)
+                        for lst in src._generated_emissions.values():
+                            out.extend(lst)
+        return out
+
+    def round_trip(self, how):
+        """what `simulate()` / a worker pool do to the world between programs: copy.deepcopy or a pickle
+        round trip of the whole infrastructure (through every `__reduce__` / `_reconstruct`); the harness
+        re-identifies the emission objects by their position"""
+        old = self._walk(self.infra)
+        new_infra = copy.deepcopy(self.infra) if how == "deepcopy" else pickle.loads(pickle.dumps(self.infra))
+        new = self._walk(new_infra)
+        if len(old) != len(new):
+            raise RuntimeError("round trip (%s) changed the number of emissions: %d -> %d" % (how, len(old), len(new)))
+        ids = [self.em_id[id(e)] for e in old]
+        self.infra = new_infra
+        self.sites = list(new_infra._sites)
+        self.em_id = {id(e): n for e, n in zip(new, ids)}
+        self.em_obj = {n: e for e, n in zip(new, ids)}
+        self.round_trips += 1
 
     def day_end(self):
         self.infra.update_emissions_state(EmisInfo())
@@ -295,6 +416,7 @@ class Recorder:
         self.binomial = []        # (p, result)
         self.spatial = {}         # model id -> (outcome, drew_roll)
         self.temporal = {}        # model id -> outcome
+        self.temporal_draws = {}  # model id -> [(p, result)] Bernoulli draws made inside the temporal check
         self.detectable = []      # (comp obj, [model ids])
         self.units = []           # {"rate", "result", "predict": (input, shift, output) | None}
         self.tags = []            # (eqg name, comp name)
@@ -344,8 +466,10 @@ class Recorder:
         o_tp = Emission.check_temporal_cov
 
         def check_temporal_cov(self_, method):
+            n0 = len(rec.binomial)
             r = o_tp(self_, method)
             rec.temporal[sc.em_id[id(self_)]] = int(r)
+            rec.temporal_draws[sc.em_id[id(self_)]] = list(rec.binomial[n0:])
             return r
 
         self._patch(Emission, "check_temporal_cov", check_temporal_cov)
@@ -476,9 +600,12 @@ def make_method(world: World, name: str, sensor_info=None):
     return mm, code
 
 
-def sensor_info_variant(world: World, name: str, mdl, qtype, qparams):
+def sensor_info_variant(world: World, name: str, mdl, qtype, qparams, tail=()):
+    """`tail`: further entries of the minimum_detection_limit list (the default has one value; the list
+    forms with 3 / 4 values belong to other sensor types, a 4th value sets DefaultSensor._min_threshold,
+    which the default sensors must not consult)"""
     info = copy.deepcopy(world.methods[name][pdc.Method_Params.SENSOR])
-    info[pdc.Method_Params.MDL] = [mdl]
+    info[pdc.Method_Params.MDL] = [mdl] + list(tail)
     info[pdc.Method_Params.QE][pdc.Method_Params.Q_TYPE] = qtype
     info[pdc.Method_Params.QE][pdc.Method_Params.QUANTIFICATION_PARAMETERS] = qparams
     return info
@@ -504,13 +631,13 @@ def run_survey(scene: Scene, mm, code, si, day, rng, model=True):
         state_before[n] = (act, bool(em.is_emitting()), em._tech_spat_covs.get(key),
                            bool(getattr(em, "_tagged", False) or getattr(em, "_record", False)),
                            em._init_detect_by)
-    cur = SIM_START + timedelta(days=day)
+    cur = scene.start + timedelta(days=day)
     report = SiteSurveyReport(site_id=site.get_id())
     crew = CrewDailyReport(crew_id=1, day_time_remaining=480)
     with Recorder(scene, snap=model) as rec:
         mm.survey_site(crew=crew, survey_report=report, site_to_survey=site, weather=None, curr_date=cur)
     if not report.survey_complete:
-        raise InfraError("adapter: survey did not complete")
+        raise RuntimeError("survey_site of a stationary method did not complete the survey")
     mdl = mm._sensor._mdl
     if not model:
         res = SurveyResult()
@@ -532,13 +659,16 @@ def run_survey(scene: Scene, mm, code, si, day, rng, model=True):
     for k in range(n_units):
         u = tested[k] if k < len(tested) else None
         if u is not None and u["predict"] is not None and u["predict"][1] is not None:
-            errs.append(to_units(u["predict"][1], 1))
+            try:
+                errs.append(to_units(u["predict"][1], 1))
+            except InfraError:
+                errs.append(0)      # a shift off the percent grid: the reply line will differ
         else:
             errs.append(rng.choice([-150, -100, -25, 0, 25, 75, 200]))   # must be ignored by the model
     emis = []
     for (n, act) in before:
         em = scene.em_obj[n]
-        s_idx, g_name, c_name, _ = scene.em_place[n]
+        s_idx, g_name, c_name = scene.em_place[n][:3]
         sp = rec.spatial.get(n)
         sroll = sp[3] if (sp is not None and sp[1] > 0) else rng.randint(0, 1)
         troll = rec.temporal.get(n, rng.randint(0, 1))
@@ -550,6 +680,20 @@ def run_survey(scene: Scene, mm, code, si, day, rng, model=True):
         "[" + ",".join("[%d,[%s]]" % (g, ",".join(map(str, cs))) for g, cs in layout) + "]",
         "[" + ",".join(map(str, errs)) + "]",
         "[" + ",".join(emis) + "]")
+    res = SurveyResult()
+    res.name, res.code, res.si, res.day, res.mdl = name, code, si, day, mdl
+    res.report, res.rec, res.before, res.state_before = report, rec, before, state_before
+    res.key, res.layout, res.tested = key, layout, tested
+    res.cov_after = {n: scene.em_obj[n]._tech_spat_covs.get(key) for (n, _) in before}
+    try:
+        rep = _impl_reply(scene, code, report, rec, before, tested, key)
+    except InfraError as e:
+        # an output off the exact grid is a difference from the model, not a harness failure
+        rep = "impl-output-off-grid: %s" % e
+    return req, rep, res
+
+
+def _impl_reply(scene, code, report, rec, before, tested, key):
     # ---- implementation reply --------------------------------------------------------------
     vis_ids = set()
     for _, ids in rec.detectable:
@@ -590,12 +734,7 @@ def run_survey(scene: Scene, mm, code, si, day, rng, model=True):
         ",".join("%d.%d" % (scene.eqg_index[g], scene.comp_index[c]) for g, c in rec.tags) if rec.tags else "-",
         "[" + ",".join(str(n) for n in order if n in tagged) + "]",
         "[" + ",".join(str(n) for n in order if n in recorded) + "]")
-    res = SurveyResult()
-    res.name, res.code, res.si, res.day, res.mdl = name, code, si, day, mdl
-    res.report, res.rec, res.before, res.state_before = report, rec, before, state_before
-    res.key, res.layout, res.tested = key, layout, tested
-    res.cov_after = {n: scene.em_obj[n]._tech_spat_covs.get(key) for (n, _) in before}
-    return req, rep, res
+    return rep
 
 
 # ------------------------------------------------------------------------------------------------
@@ -627,7 +766,8 @@ def flag_decision(site, inst, thr, measured):
     mm._site_IDs_in_consideration_for_flag = {}
     mm._site_IDs_in_follow_up_queue = {site.get_id(): False}
     mm._follow_up_schedule = _FUStub()
-    mm.update_mobile(SIM_START, DetectionRecord(site_id=site.get_id(), site=site, rate_detected=measured))
+    mm.update_mobile(site.get_latest_tagging_survey_date(),
+                     DetectionRecord(site_id=site.get_id(), site=site, rate_detected=measured))
     return bool(mm._site_IDs_in_consideration_for_flag.get(site.get_id(), False)
                 or mm._site_IDs_in_follow_up_queue.get(site.get_id(), False)
                 or len(mm._candidates_for_flags) > 0 or mm._follow_up_schedule.calls)
@@ -655,6 +795,7 @@ def flag_decision_stationary(site, small_thr, large_thr, measured, delay=0):
     mm._site_IDs_in_consideration_for_flag = {}
     mm._site_IDs_in_follow_up_queue = {site.get_id(): False}
     mm._follow_up_schedule = _FUStub()
-    mm._detection_records = {SIM_START: [DetectionRecord(site_id=site.get_id(), site=site, rate_detected=measured)]}
-    stats = mm.update(SIM_START)
+    day = site.get_latest_tagging_survey_date()     # the first simulated day of the site's world
+    mm._detection_records = {day: [DetectionRecord(site_id=site.get_id(), site=site, rate_detected=measured)]}
+    stats = mm.update(day)
     return bool(mm._follow_up_schedule.calls), stats.sites_flagged
